@@ -332,11 +332,12 @@ func (self *BinaryConv) doRecurse(ctx context.Context, s string, jp int, desc *t
 						ret = jp
 
 						if err == errNull {
-							// unwind written field tag
+							// unwind written field tag; a null member counts as absent,
+							// so the field stays owed in the requires bitmap
 							p.Buf = p.Buf[:ks]
+						} else {
+							bm.Set(ft.ID(), thrift.OptionalRequireness)
 						}
-
-						bm.Set(ft.ID(), thrift.OptionalRequireness)
 					}
 
 				OBJECT_NEXT:
